@@ -55,6 +55,30 @@ def read_params():
     else:
         vals["CLAMP"] = False
         notes.append("GIV_randIter constructor initialiser of _size not recognised: %r" % init)
+    # Poly1Dom<Domain,Dense>::random(g, r, Degree d): statement list of the body
+    try:
+        pm = open(os.path.join(vf.REPO, "src/library/poly1/givpoly1misc.inl")).read()
+        pm = re.sub(r"#if 0.*?#endif", "", pm, flags=re.S)
+        pm = re.sub(r"//[^\n]*|/\*.*?\*/", "", pm, flags=re.S)
+        m = re.search(r"Poly1Dom<Domain,Dense>::random\(RandomIterator& g, typename Poly1Dom<Domain,Dense>::Rep& r, Degree d\) const\s*\{(.*?)\n    \}", pm, flags=re.S)
+        body = re.sub(r"\s+", "", m.group(1)) if m else None
+    except OSError:
+        body = None
+    want = ("r.resize((size_t)d.value()+1);_domain.nonzerorandom(g,r[(size_t)d.value()]);"
+            "for(inti=(int)d.value();i--;)_domain.random(g,r[(size_t)i]);returnr;")
+    vals["RESIZE"] = (body == want)
+    if body != want:
+        notes.append("body of Poly1Dom::random(g, r, Degree) not recognised (modelled as growing its destination only): %r" % body)
+    fronts = {"random(g,r)": r"::random\(RandomIterator& g, Rep& r\) const\s*\{\s*return random\(g, r,Degree\(0\)\);",
+              "random(g,r,size)": r"::random\(RandomIterator& g, Rep& r, uint64_t s\) const\s*\{\s*return random\(g, r,Degree\(s-1\)\);",
+              "random(g,r,b)": r"::random\(RandomIterator& g, Rep& r, const Rep& b\) const\s*\{\s*return random\(g, r, b.size\(\)\);",
+              "nonzerorandom(g,r)": r"::nonzerorandom\(RandomIterator& g, Rep& r\) const\s*\{\s*return random\(g, r\);",
+              "nonzerorandom(g,r,size)": r"::nonzerorandom\(RandomIterator& g, Rep& r, uint64_t s\) const\s*\{\s*return random\(g, r, s\);",
+              "nonzerorandom(g,r,Degree)": r"::nonzerorandom\(RandomIterator& g, Rep& r, Degree d\) const\s*\{\s*return random\(g, r, d\);",
+              "nonzerorandom(g,r,b)": r"::nonzerorandom\(RandomIterator& g, Rep& r, const Rep& b\) const\s*\{\s*return random\(g, r, b\);"}
+    for nm, rx in sorted(fronts.items()):
+        if body is None or not re.search(rx, pm):
+            notes.append("Poly1Dom front end %s does not forward as modelled (preq_degree)" % nm)
     return vals, flag, notes
 
 
@@ -68,7 +92,10 @@ def write_params(vals, flag):
             "Definition giv_ctor_normalises : bool := %s.\n"
             "(* GIV_randIter keeps min(size, cardinality) as its sampling size (givranditer.h) *)\n"
             "Definition giv_randiter_clamps : bool := %s.\n"
-            % (vals["MULTIPLYER"], vals["MODULO"], vals["HALFMOD"], "true" if flag else "false", "true" if vals.get("CLAMP") else "false"))
+            "(* Poly1Dom<Domain,Dense>::random(g, r, Degree d) starts with r.resize((size_t)d.value()+1); (givpoly1misc.inl) *)\n"
+            "Definition poly_random_resizes : bool := %s.\n"
+            % (vals["MULTIPLYER"], vals["MODULO"], vals["HALFMOD"], "true" if flag else "false", "true" if vals.get("CLAMP") else "false",
+               "true" if vals.get("RESIZE", True) else "false"))
     vf.write_if_changed(os.path.join(vf.coq_dir(AREA), "Params.v"), text)
 
 
@@ -97,6 +124,7 @@ RINGS = {
     "gfq32": _t("gfq", "gfq", 32, 2**32 - 1, ["2", "3", "7^2", "2^8", "101", "3^9", "65521"], True),
     "gfq64": _t("gfq", "gfq", 64, 2**64 - 1, ["5^3", "1009"], True),
     "gf2": _t("gf2", "gf2", 8, 255, ["2"], True),
+    "mI": _t("mod", "mod", 0, 0, [2, 3, M31, M31 + 1, 2**64 + 13, 2**127 - 1]),
     "zi64": _t("id", "any", 64, 0, ["0"]), "zu64": _t("id", "any", 64, 0, ["0"]), "zd": _t("id", "any", 0, 0, ["0"]),
 }
 POLYS = ["i32", "u64", "d", "bi32", "bd", "mg32", "gfq32", "gfq64", "i8", "log16"]
@@ -264,6 +292,8 @@ def gen_cases(rng, tier, vals, flag):
             if thorough:
                 seeds += good[:8] + stuck + big[:6]
             ops = ["random", "nzrandom", "iter", "nziter", "itercopy"]
+            if name == "mI":
+                ops = ["random", "nzrandom"]
             for s in seeds:
                 n = 16 if thorough else 8
                 for op in ops:
@@ -292,6 +322,7 @@ def gen_cases(rng, tier, vals, flag):
                                 line="ring %s %s %s %d %d %d" % (name, ps, op, s, n, size))
     # --- polynomials
     pforms = ["deg", "deg0", "size", "like", "nzdeg", "nzdeg0", "nzsize", "nzlike"]
+    k_ = 0
     for name in POLYS:
         t = RINGS[name]
         for ps in t["moduli"][:3] + t["moduli"][-1:]:
@@ -299,14 +330,33 @@ def gen_cases(rng, tier, vals, flag):
                 for f in pforms:
                     for d in ([0, 1, 7, 64] if thorough else [rng.choice([0, 1]), rng.choice([2, 5, 33])]):
                         dd = 0 if f in ("deg0", "nzdeg0") else d
-                        add(fam="poly", ring=name, p=ps, form=f, seed=s, d=dd, line="poly %s %s %s %d %d" % (name, ps, f, s, dd))
+                        # destination: every form meets every preset (fresh / larger / one coefficient / same size / much larger, not normalised)
+                        for how in ([0, 1, 2, 3, 4] if thorough else [k_ % 5, (k_ + 1 + k_ // 5) % 5 if (k_ + 1 + k_ // 5) % 5 != k_ % 5 else (k_ + 2) % 5]):
+                            add(fam="poly", ring=name, p=ps, form=f, seed=s, d=dd, how=how, line="poly %s %s %s %d %d %d" % (name, ps, f, s, dd, how))
+                        k_ += 1
+    # one destination, sequences of requests with degrees going down as well as up, every front end, every preset (deterministic)
+    dseqs = [["D0", "D3", "D7", "D7", "D2", "D5", "D0", "D1", "D9", "D4", "D4", "D0"],
+             ["D8", "L2", "S9", "S2", "Z", "d6", "l1", "s5", "z", "I3", "I0", "D2"],
+             ["S12", "Z", "L12", "z", "l12", "d0", "I9", "I1", "s12", "s0", "D1"],
+             ["I5", "D1", "I0", "L7", "I2", "z", "d30", "D29", "S28", "s1", "l0", "D31"]]
+    for name in POLYS:
+        t = RINGS[name]
+        for j, ps in enumerate(t["moduli"][:2] + t["moduli"][-1:]):
+            for k, ops in enumerate(dseqs + [[rng.choice("DSLdsl") + str(rng.choice([0, 1, 2, 6, 11])) for _ in range(10)] for _ in range(2 if thorough else 1)]):
+                s = (good + big)[(j * 7 + k * 3) % len(good + big)]
+                how = (j + k) % 5
+                add(fam="polyseq", ring=name, p=ps, seed=s, how=how, ops=ops, line="polyseq %s %s %d %d %s" % (name, ps, s, how, " ".join(ops)))
     # --- Part C
     edge = [1, 2, 3, 2**31 - 1, 2**31, 2**32 - 1, 2**32, 2**32 + 1, 2**63 - 1, 2**63, 2**64 - 1, 2**64, 2**64 + 1, 2**127, 2**128 - 1, 2**128,
             2**128 + 1, 2**192 + 5]
     reps = 3 if thorough else 1
 
+    icount = [0]
+
     def iadd(op, var, args):
         seed = rng.choice([1, 42, rng.bits(32), rng.bits(64), 2**64 - 1, 2**63])
+        var = (var + "u")[:2] + str(icount[0] % 4)       # variant, seeding form, preset of the destination (0: -77, 1: 2^200+12345, 2: -(2^130+7), 3: 0)
+        icount[0] += 1
         add(fam="int", op=op, var=var, seed=seed, args=[str(a) for a in args],
             line="int %s %s %d %s" % (op, var, seed, " ".join(str(a) for a in args)))
     for _ in range(reps):
@@ -376,6 +426,8 @@ def gen_cases(rng, tier, vals, flag):
             q = card(ps)
             for _ in range(4 if thorough else 2):
                 alphabet = "rcvRnmC" + ("" if t["kind"] == "id" else "A")
+                if name == "mI":
+                    continue        # its RandIter draws from GMP's generator: family mii
                 if t["kind"] == "gfq" and q == 2:
                     alphabet = alphabet.replace("n", "").replace("m", "")
                 ops = "".join(rng.choice(alphabet) for _ in range(12)) + "r"
@@ -384,6 +436,11 @@ def gen_cases(rng, tier, vals, flag):
                     sizes = [0, rng.range(2, q), q, q + 1, 2 * q + 1] if q > 2 else [0, 2, 3, 5]
                 if t["kind"] == "id":
                     sizes = [0, 1000]
+                if t["kind"] in ("mod", "bal") and name != "mI":
+                    top_ = t["rmax"] if t["rmax"] else (2**24 if name in ("f", "bf", "ef", "f_d") else 2**53)
+                    sizes = sorted(set(x for x in [0, 1, 2, q - 1, q, q + 1, top_] if 0 <= x <= top_))
+                if name == "mI":
+                    sizes = [0, 1, q - 1, q, q + 1, 2**64 + 1]
                 for size in sizes:
                     if size > t["rmax"] > 0:
                         continue
@@ -420,14 +477,21 @@ def gen_cases(rng, tier, vals, flag):
             add(fam="gf2ref", op=op, seed=s, n=16, line="gf2ref %s %d 16" % (op, s))
     for (pp, ee) in [(5, 3), (2, 5), (1009, 2), (3, 7)]:
         for s in [rng.choice(good), rng.choice(big)]:
-            for op, ss in [("random", [0]), ("nzrandom", [0]), ("random_s", [1, 2, ee - 1, ee, ee + 3]), ("nzrandom_s", [1, ee, ee + 1]),
+            for op, ss in [("random", [1]), ("nzrandom", [1]), ("random_s", [1, 2, ee - 1, ee, ee + 3]), ("nzrandom_s", [1, ee, ee + 1]),
+                           ("random_b", [1, ee, ee + 2]), ("nzrandom_b", [2, ee + 1]),
                            ("iter", [0, 1, 2, pp - 1, pp, pp + 1, 100 * pp])]:
                 for sv in ss:
-                    add(fam="ext", p=pp, e=ee, op=op, seed=s, n=4, s=sv, line="ext %d %d %s %d 4 %d" % (pp, ee, op, s, sv))
-    for p in [2, 3, 1000003, 2**64 + 13, 2**127 - 1]:
-        for size in [0, 1, 17, p, p + 5]:
-            for s in [rng.choice(good), rng.choice(stuck), rng.choice(big), 0]:
-                add(fam="mii", seed=s, size=size, p=p, n=(20 if thorough else 6), line="mii %d %d %d %d" % (s, size, p, 20 if thorough else 6))
+                    add(fam="ext", p=pp, e=ee, op=op, seed=s, n=6, s=sv, line="ext %d %d %s %d 6 %d" % (pp, ee, op, s, sv))
+    for p in [2, 3, 11, 1000003, 2**64 + 13, 2**127 - 1]:
+        for size in [0, 1, 2, p - 1, p, p + 1, 2 * p + 5, 2**64 + 1, p * 2**70 + 1]:
+            for j, s in enumerate([rng.choice(good), rng.choice(stuck), rng.choice(big), 0]):
+                for ctor in ((3, 2, 1) if (size == 0 and j == 0) else (3,)):
+                    eff = p if (size == 0 or ctor != 3) else size
+                    nzok = 0 if (eff == 1 or (p == 2 and eff == 1)) else 1
+                    if ctor == 1 and s != 0:
+                        pass
+                    n_ = 21 if thorough else 9
+                    add(fam="mii", seed=s, size=size, p=p, n=n_, ctor=ctor, nz=nzok, line="mii %d %d %d %d %d %d" % (s, size, p, n_, ctor, nzok))
     # --- Part D
     for K in range(6, 11):
         for s in [0, 1, 42, rng.bits(64), U64 - 1]:
@@ -470,15 +534,24 @@ def model_line(c, out, vals):
             return None
         if c["op"] == "iter":
             return "extiter %d %d %d %d %d" % (c["p"], c["e"], c["s"], c["seed"], c["n"])
-        d = c["e"] - 1 if c["op"] in ("random", "nzrandom") else (c["e"] - 1 if c["s"] >= c["e"] else c["s"]) - 1
-        return "poly gfq %d %d %d 64" % (c["p"], c["seed"], d)
+        ops = []
+        for i in range(c["n"]):
+            si = ext_size_i(c["s"], i)
+            ops.append("E%d" % c["e"] if c["op"] in ("random", "nzrandom") else "X%d,%d" % (c["e"], si) if c["op"].endswith("_s") else "B%d" % si)
+        return "polyseq gfq %d %d 64 %d %s" % (c["p"], c["seed"], c["e"] + 4, " ".join(ops))
+    if fam == "polyseq":
+        t = RINGS[c["ring"]]
+        r0len = {0: 0, 1: 12, 2: 1, 3: 8, 4: 61}[c["how"]]
+        return "polyseq %s %d %d %d %d %s" % (t["kind"], card(c["p"]), c["seed"], t["bits"] or 32, r0len, " ".join(c["ops"]))
     if fam == "gfqx":
         return None
     if fam == "gf2ref":
         return "ring gf2 2 %s %d %d 0 8" % (c["op"], c["seed"], c["n"])
     if fam == "poly":
         t = RINGS[c["ring"]]
-        return "poly %s %d %d %d %d" % (t["kind"], card(c["p"]), c["seed"], c["d"], t["bits"] or 32)
+        d_ = c["d"]
+        r0len = {0: 0, 1: d_ + 5, 2: 1, 3: d_ + 1, 4: 3 * d_ + 40}[c.get("how", 0)]
+        return "poly %s %d %d %d %d %d" % (t["kind"], card(c["p"]), c["seed"], c["d"], t["bits"] or 32, r0len)
     if " ; " not in out and not out.endswith(" ;"):
         return None
     res, tr = out.split(" ;", 1)
@@ -501,18 +574,33 @@ def model_line(c, out, vals):
         toks = [t for t in toks if not t.startswith("s")]
         return "rii %d %d %s %d | %s" % (c["u"], c["e"], c["ss"], c["n"] + 1, " ".join(toks))
     if fam == "mii":
-        toks = [t for t in toks if not t.startswith("s")]
-        return "mii %d %d %d | %s" % (c["size"], c["p"], c["n"], " ".join(toks))
+        sd = c["seed"] if c.get("ctor", 3) != 1 else 0
+        return "mii %d %d %d %d %d %d | %s" % (c["size"], c["p"], c["n"], c.get("ctor", 3), c.get("nz", 0), sd, " ".join(toks))
     if fam == "ru":
         return "ru %d %d | %s" % (c["K"], c["n"], " ".join(toks))
     if fam == "rm":
         if c["mg"] == 2:
             return "ru %d %d | %s" % (c["K"], c["n"], " ".join(toks))
+        if c["mg"] == 1 and c["p"] % 2 == 1 and c["p"] > 1:
+            return "rmmga %d %d %d %d | %s" % (c["K"], c["p"], mg_p1(c["p"], c["K"]), c["n"], " ".join(toks))
         return "modru %d %d random %d | %s" % (c["K"], c["p"], c["n"], " ".join(toks))
     if fam == "modru":
         op = "nzrandom" if c["op"] == "nzrandom" else "random"
+        if c["ring"].startswith("mgru") and c["p"] % 2 == 1 and c["p"] > 1:
+            return "mgru %d %d %d %s %d | %s" % (c["K"], c["p"], mg_p1(c["p"], c["K"]), op, c["n"], " ".join(toks))
         return "modru %d %d %s %d | %s" % (c["K"], c["p"], op, c["n"], " ".join(toks))
     return None
+
+
+def ext_size_i(s, i):
+    """size asked for by the i-th draw of the sized Extension forms (harness ext_once)"""
+    return s if i % 2 == 0 else (1 if i % 4 == 1 else s + 1)
+
+
+def mg_p1(p, K):
+    """-p^(-1) mod 2^(2^K): the constant Montgomery<ruint<K>> / rmint<K,MGA> keep as p1 (hypothesis of C20_montgomery_reduction)"""
+    R = 1 << (1 << K)
+    return (-pow(p, -1, R)) % R
 
 
 def parse_elems(s):
@@ -548,7 +636,7 @@ def main(tier, replay=None):
                        "model hand-written after the code; tie = correspondence on generated cases incl. GMP request traces"]
     if None in [vals[k] for k in ("MULTIPLYER", "MODULO", "HALFMOD")]:
         chk.broke("cannot read _GIVRAN_MULTIPLYER_/_GIVRAN_MODULO_/_GIVRAN_HALFMOD_ from givrandom.h: %s" % vals)
-        vals = {"MULTIPLYER": 950706376, "MODULO": 2147483647, "HALFMOD": 1073741824, "CLAMP": vals.get("CLAMP", False)}
+        vals = {"MULTIPLYER": 950706376, "MODULO": 2147483647, "HALFMOD": 1073741824, "CLAMP": vals.get("CLAMP", False), "RESIZE": vals.get("RESIZE", True)}
     else:
         write_params(vals, bool(flag))
     chk.notes += pnotes
@@ -591,6 +679,28 @@ def main(tier, replay=None):
         cases = [f["case"] for f in rp.get("failing_inputs", []) if isinstance(f.get("case"), dict) and "line" in f["case"]] or cases
     impl_in = "".join(c["line"] + "\n" for c in cases)
     rc, iout, ierr = vf.run_lines(himpl, impl_in, timeout=1500, args=["%d" % LIMIT_MS])
+    if rc == 124:
+        # our own tooling ran out of wall-clock time (machine load): inconclusive, recorded, not a verdict about the property
+        chk.cov["inconclusive"] = "implementation harness: %d of %d cases answered within 1500 s wall clock" % (len(iout), len(cases))
+        chk.notes.append(chk.cov["inconclusive"])
+        return chk.finish()
+    # the per-case limit is CPU time of the harness process (ITIMER_PROF), so it does not depend on the load of the machine; a
+    # TIMEOUT is nevertheless confirmed by running the case again with 25 times the limit before it is reported
+    tmo = [i for i, o in enumerate(iout) if o == "TIMEOUT"] if (rc == 0 and len(iout) == len(cases)) else []
+    if tmo:
+        todo, back = tmo[:10], 0
+        while todo:
+            rc2, o2, _ = vf.run_lines(himpl, "".join(cases[i]["line"] + "\n" for i in todo), timeout=1500, args=["%d" % (LIMIT_MS * 25)])
+            if rc2 != 0 or len(o2) != len(todo):
+                break
+            came_back = [i for i, o in zip(todo, o2) if o != "TIMEOUT"]
+            for i, o in zip(todo, o2):
+                iout[i] = o
+            back += len(came_back)
+            rest = [i for i in tmo if i not in todo and iout[i] == "TIMEOUT"]
+            todo = rest[:40] if (came_back and todo != rest) else []       # only when the short limit proved too short for some case
+            tmo = [i for i in tmo if i not in came_back]
+        chk.cov["timeouts"] = {"first_pass": len(tmo) + back, "returned_with_25x_limit": back, "limit_ms_cpu": LIMIT_MS}
     if rc != 0 or len(iout) != len(cases):
         bad = cases[len(iout)]["line"] if len(iout) < len(cases) else ""
         chk.broke("implementation harness failed (rc=%s, %d/%d lines); next case: %s" % (rc, len(iout), len(cases), bad), ierr)
@@ -606,7 +716,10 @@ def main(tier, replay=None):
             if ml is not None:
                 idx.append(i); lines.append(ml)
         rc, mo, merr = vf.run_lines(drv, "".join(l + "\n" for l in lines), timeout=1500)
-        if rc != 0 or len(mo) != len(lines):
+        if rc == 124:
+            chk.cov["inconclusive"] = "model driver: %d of %d lines answered within 1500 s wall clock; correspondence not evaluated" % (len(mo), len(lines))
+            chk.notes.append(chk.cov["inconclusive"])
+        elif rc != 0 or len(mo) != len(lines):
             chk.broke("model driver failed (rc=%s, %d/%d lines)" % (rc, len(mo), len(lines)), merr)
         else:
             for j, i in enumerate(idx):
@@ -618,6 +731,7 @@ def main(tier, replay=None):
     M = vals["MODULO"]
     ncorr = 0
     dist = {}
+    riiseed_cache = {}
     for i, c in enumerate(cases):
         out = iout[i]
         fam = c["fam"]
@@ -738,6 +852,35 @@ def main(tier, replay=None):
                         mh, _, mt = mout[i].partition(" | ")
                         b = " ".join(str(int(x) % q) for x in mh.split()) + " | " + mt
                     mcmp = (a + " | " + tail.strip(), b) if t["kind"] != "gfq" else (a + " | " + tail.strip(), b)
+            elif fam == "polyseq":
+                t = RINGS[c["ring"]]
+                q = card(c["p"])
+                head, _, tail = out.partition(" | ")
+                steps = head.split(" / ")
+                if len(steps) != len(c["ops"]):
+                    chk.broke("polyseq: %d steps reported for %d requests: %s" % (len(steps), len(c["ops"]), c["line"]))
+                canon = []
+                for k, (stp, opn) in enumerate(zip(steps, c["ops"])):
+                    want = 0 if opn[0] in "Zz" else int(opn[1:])
+                    dz, _, coefs = stp.partition(" ;")
+                    deg, size = [int(x) for x in dz.split()]
+                    el = parse_elems(coefs)
+                    site = "Poly1Dom::random into a used destination (%s)" % {"D": "Degree", "Z": "default", "S": "size", "L": "like b", "I": "RandIter"}[opn[0].upper()]
+                    klass = "%s; request %d of a sequence; %s" % (c["ring"], k, sc)
+                    if size != want + 1 or deg != want:
+                        fail(site, klass, "degree %d" % want, "step %d (%s): degree %d size %d" % (k, opn, deg, size)); break
+                    if el[-1][2] or (t["kind"] == "gfq" and el[-1][0] == 0):
+                        fail(site, klass, "non-zero leading coefficient", "step %d (%s)" % (k, opn)); break
+                    if any(not raw_ok(t["raw"], q, e[0]) for e in el):
+                        fail(site, klass, "canonical coefficients", "step %d (%s)" % (k, opn)); break
+                    canon.append("%d ; %s" % (size, " ".join(str(e[0]) if t["kind"] == "gfq" else str(e[1] % q) for e in el)))
+                if mout[i] is not None and not fails:
+                    mh, _, mt = mout[i].partition(" | ")
+                    msteps = []
+                    for ms in mh.split(" / "):
+                        ln, _, cf = ms.partition(" ; ")
+                        msteps.append("%s ; %s" % (ln.strip(), " ".join(x if t["kind"] == "gfq" else str(int(x) % q) for x in cf.split())))
+                    mcmp = (" / ".join(canon) + " | " + tail.strip(), " / ".join(msteps) + " | " + mt.strip())
             elif fam == "int":
                 resu, _, tr = out.partition(" ;")
                 r = int(resu)
@@ -851,20 +994,21 @@ def main(tier, replay=None):
                     fail("GIV_ExtensionrandIter copy", sc, "copy continues alike")
                 if order != c["e"] or ch != c["p"] or len(elems) != c["n"]:
                     chk.broke("ext: unexpected header/element count in %s: %s" % (c["line"], out[:200]))
-                for e_ in elems:
+                for k_, e_ in enumerate(elems):
                     if any(not (0 <= x < c["p"]) for x in e_):
                         fail(site, sc, "coefficients canonical in the base field", str(e_)); break
                     if c["op"] == "iter":
                         if len(e_) != c["e"]:
                             fail(site, sc, "%d coefficients" % c["e"], str(e_)); break
                     else:
-                        d = c["e"] - 1 if c["op"] in ("random", "nzrandom") else (c["e"] - 1 if c["s"] >= c["e"] else c["s"]) - 1
+                        si = ext_size_i(c["s"], k_)
+                        d = c["e"] - 1 if c["op"] in ("random", "nzrandom") else (si - 1 if c["op"].endswith("_b") else (c["e"] - 1 if si >= c["e"] else si) - 1)
                         if len(e_) != d + 1 or e_[-1] == 0:
-                            fail(site, sc, "degree exactly %d" % d, str(e_)); break
+                            fail(site + " into a used destination", "draw %d; %s" % (k_, sc), "degree exactly %d" % d, str(e_)); break
                 if mout[i] is not None and elems and c["op"] == "iter":
                     mcmp = (" ".join("[" + " ".join(str(x) for x in e_) + "]" for e_ in elems), mout[i])
-                elif mout[i] is not None and elems:
-                    mcmp = (" ".join(str(x) for x in elems[0]), mout[i].partition(" | ")[0].strip())
+                elif mout[i] is not None and elems and not fails:
+                    mcmp = (" / ".join("%d ; %s" % (len(e_), " ".join(str(x) for x in e_)) for e_ in elems) + " | " + tail.strip(), mout[i])
             elif fam == "rii":
                 resu, _, tr = out.partition(" ;")
                 toks = resu.split()
@@ -879,14 +1023,28 @@ def main(tier, replay=None):
                         ok = False
                     if not ok:
                         fail("RandomIntegerIterator<%d,%d>" % (c["u"], c["e"]), "bits=%d" % bits, "draw in its documented set", "value %d" % x); break
+                stoks = [t_ for t_ in tr.split() if t_.startswith("s")]
+                if c["seed"] != 0 and drv:
+                    if c["seed"] not in riiseed_cache:
+                        rcs, so, _ = vf.run_lines(drv, "riiseed %d\n" % c["seed"], timeout=300)
+                        riiseed_cache[c["seed"]] = so[0].strip() if (rcs == 0 and so) else None
+                    ms = riiseed_cache[c["seed"]]
+                    if ms is not None and stoks[:1] != ["s%s=0" % ms]:
+                        if stoks[:1] != ["s%d=0" % c["seed"]]:
+                            fail("RandomIntegerIterator constructor", "seeding of GMP's generator", "gmp_randseed_ui(%d)" % c["seed"], "trace starts %s" % stoks[:1])
+                        else:
+                            chk.broke("correspondence: model seeds GMP with %s, implementation with %s on %s" % (ms, stoks[:1], c["line"]))
                 if mout[i] is not None:
                     mm = mout[i].split(" ; ")
                     mcmp = (resu.strip(), mm[0] if len(mm) == 2 else mout[i])
             elif fam == "mii":
                 resu, _, tr = out.partition(" ;")
-                for x in resu.split():
+                ctorn = {3: "(F, seed, size)", 2: "(F, seed)", 1: "(F)"}[c.get("ctor", 3)]
+                for k_, x in enumerate(resu.split()):
                     if not (0 <= int(x) < c["p"]):
-                        fail("ModularRandIter<Modular<Integer>>", "p=%d" % c["p"], "canonical residue", "value %s" % x); break
+                        fail("ModularRandIter<Modular<Integer>>" + ctorn, "p=%d" % c["p"], "canonical residue", "value %s" % x); break
+                    if c.get("nz") and k_ % 7 >= 4 and int(x) == 0:
+                        fail("NonZeroRandIter around ModularRandIter<Modular<Integer>>" + ctorn, "p=%d" % c["p"], "non-zero residue", "draw %d" % k_); break
                 if mout[i] is not None:
                     mm = mout[i].split(" ; ")
                     mcmp = (resu.strip(), mm[0] if len(mm) == 2 else mout[i])
@@ -911,17 +1069,25 @@ def main(tier, replay=None):
                         if not (0 <= raw < c["p"]) or not (0 <= val < c["p"]):
                             fail("RecInt::rand(rmint<K,%s>)" % ("MGI" if c["mg"] == 0 else "MGA"), "K=%d" % c["K"], "residue below the module", "raw %d" % raw); break
                     if mout[i] is not None:
-                        mcmp = (" ".join(str(e[1]) for e in el), mout[i].split(" ; ")[0])
+                        if c["mg"] == 1 and c["p"] % 2 == 1 and c["p"] > 1:
+                            mcmp = (" ".join("%d:%d" % (e[0], e[1]) for e in el), mout[i].split(" ; ")[0])     # stored Montgomery form : value
+                        else:
+                            mcmp = (" ".join(str(e[1]) for e in el), mout[i].split(" ; ")[0])
             elif fam == "modru":
                 resu, _, tr = out.partition(" ;")
                 el = parse_elems(resu)
                 for (raw, val, z, cp) in el:
                     if not (0 <= raw < c["p"]) or not (0 <= val < c["p"]):
                         fail("Modular<ruint<K>>::%s" % c["op"], c["ring"], "canonical element", "raw %d" % raw); break
-                    if c["op"] == "nzrandom" and (z or raw == 0):
+                    if c["op"] == "nzrandom" and (z or raw == 0 or val == 0):
                         fail("Modular<ruint<K>>::%s" % c["op"], c["ring"], "non-zero element"); break
+                    if (raw == 0) != (val == 0):
+                        fail("Modular<ruint<K>>::%s" % c["op"], c["ring"], "stored form zero exactly when the value is zero", "raw %d value %d" % (raw, val)); break
                 if mout[i] is not None:      # (a RandIter built per draw does not reseed the limb generator: same stream as random)
-                    a = " ".join(str(e[0]) for e in el) + " ; " + str(len(tr.split()))
+                    if c["ring"].startswith("mgru") and c["p"] % 2 == 1 and c["p"] > 1:
+                        a = " ".join("%d:%d" % (e[0], e[1]) for e in el) + " ; " + str(len(tr.split()))      # stored Montgomery form : value
+                    else:
+                        a = " ".join(str(e[0]) for e in el) + " ; " + str(len(tr.split()))
                     mcmp = (a, mout[i])
         except (ValueError, IndexError) as ex:
             chk.broke("cannot interpret the harness output for %s: %r (%s)" % (c["line"], out[:200], ex))
